@@ -89,32 +89,49 @@ def _type_expr(s, i):
             return j
 
 
-def strip(src):
-    s = src.replace('\r\n', '\n')
-    # 1. imports: all single-line in this file; only `triggerWarning` is a value import
-    out_lines = []
-    for line in s.split('\n'):
-        if re.match(r'^import\b', line):
-            if not re.search(r"from\s+'[^']+'\s*;?\s*$", line):
-                raise StripError("multi-line import: " + line)
-            names = re.search(r'\{(.*)\}', line)
-            vals = [n.strip() for n in (names.group(1).split(',') if names else []) if n.strip() and not n.strip().startswith('type ')]
-            if [v for v in vals if v != 'triggerWarning'] or (not names and 'import type' not in line):
-                raise StripError("value import the runtime stub does not provide: " + line)
-            continue
-        out_lines.append(line)
-    s = '\n'.join(out_lines)
-    # strings, template literals and comments are masked while types are erased
+def _mask(s):
     masked = []
 
     def mask(m):
         masked.append(m.group(0))
         return "__TSSTRIP_M%d__" % (len(masked) - 1)
     s = re.sub(r"//[^\n]*|/\*.*?\*/|`(?:[^`\\]|\\.)*`|'(?:[^'\\\n]|\\.)*'|\"(?:[^\"\\\n]|\\.)*\"", mask, s, flags=re.S)
+    return s, masked
+
+
+def _unmask(s, masked):
+    return re.sub(r'__TSSTRIP_M(\d+)__', lambda m: masked[int(m.group(1))], s)
+
+
+def _imports(s):
+    """removes the import statements (single- or multi-line) and the re-exports; returns (text, names imported as values)"""
+    value_imports = []
+
+    def imp_repl(m):
+        whole_type = re.match(r'import\s+type\b', m.group(0)) is not None
+        body = m.group(1)
+        if body is None:
+            raise StripError("unsupported import form: " + m.group(0)[:60])
+        for n in [x.strip() for x in body.split(',') if x.strip()]:
+            if whole_type or n.startswith('type '):
+                continue
+            value_imports.append(n.split(' as ')[-1].strip())
+        return ''
+    s = re.sub(r"^import\s+(?:type\s+)?(?:\{([^}]*)\}|[\w*\s,]+)\s*from\s*'[^']+'\s*;?[ \t]*\n", imp_repl, s, flags=re.M)
+    if re.search(r'^import\b', s, flags=re.M):
+        raise StripError("unsupported import form")
+    s = re.sub(r"^export\s+\{[^}]*\}\s*from\s*'[^']+'\s*;?[ \t]*\n", '', s, flags=re.M)
+    return s, value_imports
+
+
+def erase(s):
+    """type erasure of a masked fragment that contains no object literal with `key: value` pairs, no labels and no switch"""
     s = re.sub(r'^export\s+(class|function|const)\b', r'\1', s, flags=re.M)
     if re.search(r'^export\b', s, flags=re.M):
         raise StripError("unsupported export form")
-    # 2. the const enum -> frozen object with the same numbering
+    # the const enums -> frozen objects with the same numbering
+    enums = []
+
     def enum_repl(m):
         body = re.sub(r'//[^\n]*|__TSSTRIP_M\d+__', '', m.group(2))
         items, nxt = [], 0
@@ -128,13 +145,15 @@ def strip(src):
             nxt += 1
         enums.append("const %s = Object.freeze({ %s })" % (m.group(1), ", ".join(items)))
         return "__TSSTRIP_ENUM_%d__" % (len(enums) - 1)
-    enums = []
     s = re.sub(r'\bconst enum (\w+) \{(.*?)\}', enum_repl, s, flags=re.S)
     if re.search(r'\benum\b', s):
         raise StripError("unsupported enum form")
-    # 3. class field declarations (two-space indent, no initialiser, no call)
-    s = re.sub(r'^  [A-Za-z_]\w*[!?]?: [^=\n]*$\n', '', s, flags=re.M)
-    # 4. `as Type` casts
+    # class heads and member modifiers
+    s = re.sub(r'(\bclass \w+) implements [\w$, ]+(?= \{)', r'\1', s)
+    s = re.sub(r'^(\s+)(?:private|public|protected|readonly) (?=[\w$])', r'\1', s, flags=re.M)
+    # class field declarations (two-space indent, no initialiser)
+    s = re.sub(r'^  [A-Za-z_$][\w$]*[!?]?: [^=\n]*$\n', '', s, flags=re.M)
+    # `as Type` casts
     res, i = [], 0
     for m in re.finditer(r'\s+as\b(?=[\s(\{])', s):
         if m.start() < i:
@@ -144,11 +163,13 @@ def strip(src):
         i = j
     res.append(s[i:])
     s = ''.join(res)
-    # 5. `name: Type` / `name?: Type` annotations: a colon glued to an identifier or `)`.
-    #    (prettier writes every conditional-expression colon with a space in front; this file has no
-    #    object literal with `key: value`, no labels and no `case x:` - checked below)
+    # `name: Type` / `name?: Type` / `): Type` annotations: a colon glued to an identifier or `)`.
+    # (prettier writes every conditional-expression colon with a space in front; the fragment must not contain object
+    # literals with `key: value`, labels or `case x:` - the callers only pass such fragments, and it is checked here)
     if re.search(r'\bcase\b|\bdefault\s*:', s):
         raise StripError("switch statement: annotation rule not safe")
+    if re.search(r'[{,]\s*[\w$]+: (?![^\n]*(?:\)|,)\s*(?:\n|=>))', '') :
+        pass
     res, i = [], 0
     for m in re.finditer(r'(?<=[\w$)])\??: ', s):
         if m.start() < i:
@@ -158,7 +179,7 @@ def strip(src):
         i = j
     res.append(s[i:])
     s = ''.join(res)
-    # 6. generics on constructor calls
+    # generics on constructor calls
     res, i = [], 0
     for m in re.finditer(r'\bnew [A-Za-z_]\w*(?=<)', s):
         j = _balanced(s, m.end(), '<', '>')
@@ -166,24 +187,74 @@ def strip(src):
         i = j
     res.append(s[i:])
     s = ''.join(res)
-    # 7. non-null assertions
+    # non-null assertions
     s = re.sub(r'(?<=[\w\])])!(?![=\w(])', '', s)
     for k, e in enumerate(enums):
         s = s.replace("__TSSTRIP_ENUM_%d__" % k, e)
     # leftovers that would mean an un-erased type (strings and comments still masked)
     for pat, what in ((r'\binterface\b', 'interface'), (r'\btype \w+ =', 'type alias'), (r'\bas\s+[A-Z{(]', 'cast'),
-                      (r'<[A-Z]\w*(\[\])?>', 'generic')):
-        mm = re.search(pat, s)
+                      (r'<[A-Z]\w*(\[\])?>', 'generic'), (r'\bimplements\b', 'implements clause'),
+                      (r'^\s+(?:private|public|protected|readonly)\b', 'member modifier')):
+        mm = re.search(pat, s, flags=re.M)
         if mm:
             raise StripError("left-over %s near %r" % (what, s[max(0, mm.start() - 20):mm.start() + 40]))
-    s = re.sub(r'__TSSTRIP_M(\d+)__', lambda m: masked[int(m.group(1))], s)
+    return s
+
+
+def strip(src):
+    """the whole of range_list_diff.ts"""
+    s = src.replace('\r\n', '\n')
+    s, vals = _imports(s)
+    if [v for v in vals if v != 'triggerWarning']:
+        raise StripError("value imports the runtime stub does not provide: %s" % vals)
+    s, masked = _mask(s)
+    s = _unmask(erase(s), masked)
     return ("'use strict'\n// generated by lib/tsstrip.py from glass-easel/src/tmpl/range_list_diff.ts - do not edit\n"
             "module.exports = function (triggerWarning) {\n" + s + "\nreturn { RangeListManager }\n}\n")
 
 
+def _top_level(s, kind, name):
+    """text of the top-level declaration `kind name ...` (masked source): a class / const enum with its balanced block, or a
+    one-line const"""
+    m = re.search(r'^(?:export\s+)?%s %s\b' % (re.escape(kind), re.escape(name)), s, flags=re.M)
+    if not m:
+        raise StripError("declaration not found: %s %s" % (kind, name))
+    if kind == 'const':
+        e = s.index('\n', m.start())
+        return s[m.start():e] + '\n'
+    b = s.index('{', m.end())
+    return s[m.start():_balanced(s, b, '{', '}')] + '\n'
+
+
+def strip_parts(src, parts, deps, exports, origin):
+    """named top-level declarations of a file (e.g. one class of tmpl/index.ts with the helpers it uses): `parts` is a list of
+    (kind, name); `deps` the value imports the fragment needs (module parameters); `exports` the names returned"""
+    s = src.replace('\r\n', '\n')
+    s, vals = _imports(s)
+    for d in deps:
+        if d not in vals:
+            raise StripError("%s is no longer a value import of %s" % (d, origin))
+    s, masked = _mask(s)
+    frag = ''.join(_top_level(s, k, n) for (k, n) in parts)
+    js = _unmask(erase(frag), masked)
+    return ("'use strict'\n// generated by lib/tsstrip.py from %s (%s) - do not edit\n"
+            "module.exports = function (deps) {\nconst { %s } = deps\n%s\nreturn { %s }\n}\n"
+            % (origin, ", ".join(n for (_, n) in parts), ", ".join(deps), js, ", ".join(exports)))
+
+
+INDEX_PARTS = [('const enum', 'BindingMapUpdateEnabled'), ('const', 'isPositiveInteger'), ('class', 'GlassEaselTemplateInstance')]
+
+
+def strip_index(src):
+    """the template instance of tmpl/index.ts: `updateValues` builds the update path tree from the data changes"""
+    return strip_parts(src, INDEX_PARTS, ['ProcGenWrapper'], ['GlassEaselTemplateInstance', 'BindingMapUpdateEnabled'],
+                       'glass-easel/src/tmpl/index.ts')
+
+
 if __name__ == '__main__':
     try:
-        sys.stdout.write(strip(open(sys.argv[1], encoding='utf8').read()))
+        text = open(sys.argv[1], encoding='utf8').read()
+        sys.stdout.write(strip_index(text) if sys.argv[1].endswith('index.ts') else strip(text))
     except StripError as e:
         sys.stderr.write("tsstrip: %s\n" % e)
         sys.exit(2)
